@@ -105,6 +105,7 @@ def run(pid, tier):
         mc_runs("CoPool", [("MC_CoPool.cfg", None), ("MC_CoPool_join_no_recheck.cfg", "any")], tier, cov)
         pscs = poolcheck.stage(pid, tier, v, cov, wd, bindir)
         scs = scs + pscs[-2:]
+    cov["samples"] = scs[:2] + scs[-1:]
     cov["exhaustive"] = False
     cov["clauses_checked"] = sorted(CLAUSES[pid])
     return v.finish(cov, assumptions=["one EventLoops instance per process", "tasks are identified by unique names; every task body logs its own execution",
